@@ -1,4 +1,4 @@
 From Coq Require Import Extraction ExtrOcamlBasic List ZArith NArith.
-From MirV Require Import C19.Varr C19.Bitmap.
+From MirV Require Import C19.Varr C19.Bitmap C19.Htab C19.Dlist.
 Extraction Language OCaml.
-Extraction "c19x.ml" vcreate vstep vrun binit bstep.
+Extraction "c19x.ml" vcreate vstep vrun binit bstep inst_create inst_step dinit dstep sstep.
